@@ -130,6 +130,8 @@ pub struct Ledger {
     pub allow_illegal_dev_writes: bool,
     /// Poison pattern for DeviceToDriver bounce buffers.
     pub poison: u8,
+    /// Number of Hal calls seen with access_platform = false / true.
+    pub ap_calls: [u64; 2],
 }
 
 impl Default for Ledger {
@@ -153,6 +155,7 @@ impl Default for Ledger {
             p2v_requests: vec![],
             allow_illegal_dev_writes: false,
             poison: 0xA5,
+            ap_calls: [0, 0],
         }
     }
 }
@@ -198,6 +201,7 @@ impl Ledger {
         std::mem::take(&mut self.unshare_log)
     }
     fn check_ap(&mut self, what: &'static str, ap: bool) {
+        self.ap_calls[ap as usize] += 1;
         if let Some(e) = self.expect_ap {
             if e != ap {
                 self.viol("hal_access_platform_mismatch", format!("{} called with access_platform={} but negotiated={}", what, ap, e));
